@@ -2,6 +2,7 @@ package main
 
 import (
 	"fmt"
+	"strings"
 	"go/token"
 	"go/types"
 	"sort"
@@ -94,6 +95,39 @@ func rulesC15(w *World, r *Report) {
 		r.add("C15.R2 short count surfaces", fnName(c.Parent())+" · "+w.leafKey(c), w.instrPos(c), ok, fact)
 	}
 	r.floor("C15.R2 destination writes", len(leafs), 1)
+	// R3: the destination writer is used only as the receiver of the checked Write
+	wf, _ := w.fieldByType("Encoder", "io.Writer")
+	nU := 0
+	if wf < 0 {
+		r.undecided("C15.R3 the destination writer does not escape", "Encoder writer field", "-", "no unique io.Writer field in Encoder")
+	}
+	for _, fn := range w.SrcFuncs() {
+		cnt := 0
+		for _, b := range fn.Blocks {
+			for _, in := range b.Instrs {
+				ld, ok := in.(*ssa.UnOp)
+				if !ok {
+					continue
+				}
+				owner, fld, ok := w.fieldOfLoad(ld)
+				if !ok || owner != "Encoder" || fld != wf {
+					continue
+				}
+				for _, ref := range *ld.Referrers() {
+					if _, isDbg := ref.(*ssa.DebugRef); isDbg {
+						continue
+					}
+					nU++
+					cnt++
+					c, isCall := ref.(*ssa.Call)
+					okUse := isCall && c.Call.IsInvoke() && c.Call.Value == ssa.Value(ld) && c.Call.Method.Name() == "Write" && leafSet[c]
+					r.add("C15.R3 the destination writer does not escape", fmt.Sprintf("%s · use #%d of the destination writer", fnName(fn), cnt), w.instrPos(ref), okUse,
+						map[bool]string{true: "receiver of the checked Write call", false: "the destination writer is handed to " + ref.String() + ": writes made there are outside the error/short-count discipline"}[okUse])
+				}
+			}
+		}
+	}
+	r.floor("C15.R3 uses of the destination writer", nU, 1)
 }
 
 func (w *World) leafKey(c *ssa.Call) string {
@@ -230,42 +264,58 @@ func rulesC13(w *World, r *Report) {
 	}
 	r.floor("C13.R1 call sites that can relay a codec error", n1, 15)
 
-	// R2: default arm
+	// R2: every return of the value dispatch that can be reached with an unsupported kind is an error
 	f := w.flow(wd)
-	var kindCall *ssa.Call
-	best := 0
+	var valueOf *ssa.Call
+	nCmp := 0
 	for _, b := range wd.Blocks {
 		for _, in := range b.Instrs {
 			c, ok := in.(*ssa.Call)
 			if !ok {
 				continue
 			}
-			if sc := c.Call.StaticCallee(); sc == nil || qualifiedFnName(sc) != "(reflect.Value).Kind" {
+			sc := c.Call.StaticCallee()
+			if sc == nil {
 				continue
 			}
-			n := 0
-			for _, ref := range *c.Referrers() {
-				if bo, ok := ref.(*ssa.BinOp); ok && bo.Op == token.EQL {
-					n++
-				}
+			if qualifiedFnName(sc) == "reflect.ValueOf" && valueOf == nil {
+				valueOf = c
 			}
-			if n > best {
-				best, kindCall = n, c
+			if qualifiedFnName(sc) == "(reflect.Value).Kind" {
+				for _, ref := range *c.Referrers() {
+					if bo, ok := ref.(*ssa.BinOp); ok && bo.Op == token.EQL {
+						nCmp++
+					}
+				}
 			}
 		}
 	}
-	if kindCall == nil || best < 5 {
-		r.undecided("C13.R2 unsupported kinds yield an error", "(*Encoder).WriteData · kind dispatch", w.pos(wd.Pos()), "no reflect.Value.Kind() call compared against ≥5 kinds was found: the kind dispatch was not recognised")
+	if valueOf == nil || nCmp < 5 {
+		r.undecided("C13.R2 unsupported kinds yield an error", "(*Encoder).WriteData · kind dispatch", w.pos(wd.Pos()), "no reflect.ValueOf + Kind() dispatch over ≥5 kinds was found: the kind dispatch was not recognised")
 	} else {
-		kt := f.term(kindCall)
 		idx := errIndex(wd.Signature)
-		n2 := 0
+		n2, nRet := 0, 0
 		for _, b := range wd.Blocks {
 			ret, ok := b.Instrs[len(b.Instrs)-1].(*ssa.Return)
-			if !ok || !kindCall.Block().Dominates(b) || !f.Reachable(b) {
+			if !ok || !f.Reachable(b) {
 				continue
 			}
-			ks, _ := f.Eval(kt, f.At(b))
+			if !(valueOf.Block().Dominates(b)) {
+				continue // before the value is reflected (the untyped nil)
+			}
+			nRet++
+			// the most constrained Kind fact at this return
+			var ks ISet
+			for k, v := range f.At(b) {
+				if strings.HasPrefix(k, "pure:(reflect.Value).Kind(") {
+					if ks == nil || v.Card().Cmp(ks.Card()) < 0 {
+						ks = v
+					}
+				}
+			}
+			if ks == nil {
+				ks = mkSet(0, 26)
+			}
 			var bad []string
 			for k, name := range unsupportedKinds {
 				if ks.Contains(k) {
@@ -278,11 +328,11 @@ func rulesC13(w *World, r *Report) {
 			}
 			n2++
 			ok2 := w.nonNilErr(ret.Results[idx], nil, nil, 0)
-			fact := fmt.Sprintf("kinds reaching this return include %v; error operand %s", bad, describeVal(ret.Results[idx], nil))
-			r.add("C13.R2 unsupported kinds yield an error", fmt.Sprintf("(*Encoder).WriteData · return#%d of the kind dispatch", n2), w.instrPos(ret), ok2, fact)
+			fact := fmt.Sprintf("kinds that can reach this return include %v; error operand %s", bad, describeVal(ret.Results[idx], nil))
+			r.add("C13.R2 unsupported kinds yield an error", fmt.Sprintf("(*Encoder).WriteData · return#%d reachable for an unsupported kind", n2), w.instrPos(ret), ok2, fact)
 		}
 		r.floor("C13.R2 returns reachable for unsupported kinds", n2, 1)
-		r.note("kind dispatch: %s compared against %d kinds", kindCall.String(), best)
+		r.note("kind dispatch: %d kind comparisons, %d returns after reflect.ValueOf examined", nCmp, nRet)
 	}
 
 	// R3: panic sites on the encode path
@@ -336,8 +386,97 @@ func rulesC13(w *World, r *Report) {
 	}
 	r.floor("C13.R3 panic-site census", n3, 2)
 
+	// R5: a value writer cannot succeed without writing
+	w.ruleAlwaysWrites(r, "C13.R5 value writers write or fail")
+
 	// R4: header count = loop bound (list writer)
 	w.ruleListCount(r, "C13.R4 declared count = elements written")
+}
+
+// ruleAlwaysWrites: for every function of the write closure with an error
+// result: every path from entry to a possibly-successful return passes a
+// destination write or a call to such a function (greatest fixpoint).
+func (w *World) ruleAlwaysWrites(r *Report, rule string) {
+	closure := w.writeClosure()
+	leaf := map[*ssa.Call]bool{}
+	for _, c := range w.leafWrites() {
+		leaf[c] = true
+	}
+	var fns []*ssa.Function
+	for _, fn := range w.SrcFuncs() {
+		if closure[fn] && errIndex(fn.Signature) >= 0 && fn.Signature.Recv() != nil && namedIs(fn.Signature.Recv().Type(), hessianPath, "Encoder") {
+			fns = append(fns, fn)
+		}
+	}
+	aw := map[*ssa.Function]bool{}
+	for _, fn := range fns {
+		aw[fn] = true
+	}
+	why := map[*ssa.Function]string{}
+	eval := func(fn *ssa.Function) bool {
+		f := w.flow(fn)
+		ev := map[*ssa.BasicBlock]bool{}
+		for _, b := range fn.Blocks {
+			for _, in := range b.Instrs {
+				c, ok := in.(*ssa.Call)
+				if !ok {
+					continue
+				}
+				if leaf[c] {
+					ev[b] = true
+				}
+				if sc := c.Call.StaticCallee(); sc != nil && aw[sc] {
+					ev[b] = true
+				}
+			}
+		}
+		idx := errIndex(fn.Signature)
+		ok := true
+		seen := map[*ssa.BasicBlock]bool{}
+		var walk func(b *ssa.BasicBlock)
+		walk = func(b *ssa.BasicBlock) {
+			if seen[b] || ev[b] || !ok {
+				return
+			}
+			seen[b] = true
+			if ret, isRet := b.Instrs[len(b.Instrs)-1].(*ssa.Return); isRet {
+				e := ret.Results[idx]
+				if w.nonNilErr(e, nil, nil, 0) {
+					return
+				}
+				if env := f.At(b); env != nil {
+					if s, has := env["("+f.term(e).Key()+" != nil:error)"]; has && s.Equal(single(1)) {
+						return
+					}
+				}
+				ok = false
+				why[fn] = "a return at " + w.instrPos(ret) + " can report success on a path that wrote nothing"
+				return
+			}
+			for _, s2 := range b.Succs {
+				walk(s2)
+			}
+		}
+		walk(fn.Blocks[0])
+		return ok
+	}
+	for changed := true; changed; {
+		changed = false
+		for _, fn := range fns {
+			if aw[fn] && !eval(fn) {
+				aw[fn] = false
+				changed = true
+			}
+		}
+	}
+	for _, fn := range fns {
+		fact := "every possibly-successful path passes a destination write (directly or through a writer that always writes)"
+		if !aw[fn] {
+			fact = why[fn] + ": an element can be 'written' as nothing while the header still counts it"
+		}
+		r.add(rule, fnName(fn), w.pos(fn.Pos()), aw[fn], fact)
+	}
+	r.floor(rule, len(fns), 15)
 }
 
 func fnNames(fs []*ssa.Function) []string {
